@@ -34,12 +34,14 @@ EXPLANATION = (
     "enumeration of its finite argument domain (bounded, complete), its callers "
     "are proved against its contract.")
 ASSUMPTIONS = [
+    "the bounded grid in this check adds nothing on a tree where every obligation is discharged; it is a safety net for changed code that leaves the verifier's reach (reported `undecided` by the proof part), labelled bounded, never counted as proved",
+   
     "the 3 CF spellings 360_day/365_day/366_day are covered by C15's obligation that "
     "MODES[spelling] is the same table pair",
 ]
 
 
-def bounded(tier, seed, repo):
+def _bounded_imd(tier, seed, repo):
     """Exhaustive-finite stand-in for _iter_months_days (its argument domain is
     finite): the real function against the spec sequence, every mode."""
     if repo not in sys.path:
@@ -133,3 +135,8 @@ LEVEL_NOTE = ("Trusted: the PyVC translation of Python to SMT, z3/cvc5, the spec
               "(validated against datetime in the thorough tier). _iter_months_days' own "
               "list-building body is covered by exhaustive enumeration of its finite "
               "precondition domain (bounded, complete), not by proof.")
+
+
+def bounded(tier, seed, repo):
+    from . import safety_bounded
+    return _bounded_imd(tier, seed, repo) + safety_bounded.check_c03(tier, seed, repo)
